@@ -52,6 +52,30 @@ ASSUMPTIONS = ['CPython switches threads only between source lines of the traced
 LOCKED_SAFE = 42
 
 
+class Hang(Exception):
+    pass
+
+
+def guarded(fn, timeout=90):
+    """fn() in a helper thread: a load that never returns (a self-deadlock) must not take the check down with it."""
+    import threading
+    box = {}
+
+    def body():
+        try:
+            box['v'] = fn()
+        except BaseException as e:   # noqa
+            box['e'] = e
+    t = threading.Thread(target=body, daemon=True)
+    t.start()
+    t.join(timeout)
+    if t.is_alive():
+        raise Hang('no result after %d s' % timeout)
+    if 'e' in box:
+        raise box['e']
+    return box['v']
+
+
 # ------------------------------------------------------------------------------------------------ extracted models
 
 def model_cross_check(ctx):
@@ -647,7 +671,7 @@ def load_lines_env(seed):
         d = x.d
         d.select(dumps=slice(1, 6), channels=slice(1, 7))
         with dask.config.set(scheduler='synchronous'):
-            _ld['exp'] = [d.vis[0:2], d.flags[1:3], (d.flags[2:4], d.weights[3], d.vis[3])]
+            _ld['exp'] = guarded(lambda: [d.vis[0:2], d.flags[1:3], (d.flags[2:4], d.weights[3], d.vis[3])])
     return _ld['x'], _ld['exp']
 
 
@@ -679,6 +703,12 @@ def site_load_lines(seed):
 
 
 def run_load_lines(ctx):
+    try:
+        load_lines_env(ctx.seed)
+    except Hang as e:
+        ctx.disagree('what=single_thread_load;symptom=hangs', dict(site='load_lines', schedule=[]), str(e), None,
+                     'indexing vis/flags/weights of a v4 data set from ONE thread does not return')
+        return
     with dask.config.set(scheduler='synchronous'):
         run_site(ctx, 'load_lines', site_load_lines(ctx.seed), LOAD_FILES, n=ctx.scale(10, 120), length=1500, cap=ctx.scale(40, 1500))
 
@@ -773,10 +803,10 @@ def load_case(ctx, x, fixture, iname, joint, desc, ref, ref_reads, rl, seed):
     try:
         if ms is not None:
             with dask.config.set(scheduler=ms):
-                got = do_load(d, idx, joint)
+                got = guarded(lambda: do_load(d, idx, joint))
         else:
             with dask.config.set(scheduler='threads', num_workers=desc['workers']), rec:
-                got = do_load(d, idx, joint)
+                got = guarded(lambda: do_load(d, idx, joint))
     except Exception as e:   # noqa
         ctx.disagree('what=threaded_load;sched=%s;symptom=raises_%s' % (desc['type'], type(e).__name__), case,
                      repr(e)[:200], None, 'a load under a multi-worker schedule raised; the single-threaded load does not')
@@ -848,7 +878,10 @@ def store_writes_case(ctx, x, fixture, iname):
     """The cells DaskLazyIndexer.get's output stage writes (one region per chunk of each kept array, lock=False): they are
     pairwise distinct, so that the theorem applies; the model confirms order independence on a random permutation."""
     d = x.d
-    kept = [dask_getitem(a.dataset, INDICES[iname]) for a in (d.vis, d.weights, d.flags)]
+    try:
+        kept = guarded(lambda: [dask_getitem(a.dataset, INDICES[iname]) for a in (d.vis, d.weights, d.flags)], 30)
+    except Hang:
+        return
     writes = []
     offset = 0
     for arr in kept:
@@ -904,8 +937,15 @@ def threaded_vs_sync(ctx):
             combos = [('all', False), ('all', True), ('fancy', True)] if ctx.tier != 'thorough' else \
                 [(i, j) for i in INDICES for j in (False, True)]
             for iname, joint in combos:
-                with dask.config.set(scheduler='synchronous'):
-                    ref = do_load(x.d, INDICES[iname], joint)
+                try:
+                    with dask.config.set(scheduler='synchronous'):
+                        ref = guarded(lambda: do_load(x.d, INDICES[iname], joint))
+                except Hang as e:
+                    ctx.disagree('what=single_thread_load;symptom=hangs',
+                                 dict(kind='load', fixture=fixture, seed=seed, index=iname, joint=joint,
+                                      sched=dict(type='threads', workers=1)), str(e), None,
+                                 'the single-threaded load of a v4 data set does not return')
+                    return
                 ref_reads = rl.take()
                 descs = schedulers_for(ctx, rng)
                 if ctx.tier != 'thorough' and not (iname == 'all' and joint):
@@ -997,8 +1037,13 @@ def replay_case(ctx, case):
         x = build_fixture(case['fixture'], case['seed'])
         rl = ReadLog(x.store)
         try:
-            with dask.config.set(scheduler='synchronous'):
-                ref = do_load(x.d, INDICES[case['index']], case['joint'])
+            try:
+                with dask.config.set(scheduler='synchronous'):
+                    ref = guarded(lambda: do_load(x.d, INDICES[case['index']], case['joint']))
+            except Hang as e:
+                ctx.disagree('what=single_thread_load;symptom=hangs', case, str(e), None,
+                             'the single-threaded load of a v4 data set does not return')
+                return
             ref_reads = rl.take()
             reps = 1 if case['sched']['type'] == 'model' else 10
             for _ in range(reps):
@@ -1011,6 +1056,12 @@ def replay_case(ctx, case):
     make, files = site_table(ctx)[site]
     try:
         if site == 'load_lines':
+            try:
+                load_lines_env(ctx.seed)
+            except Hang as e:
+                ctx.disagree('what=single_thread_load;symptom=hangs', case, str(e), None,
+                             'indexing vis/flags/weights of a v4 data set from ONE thread does not return')
+                return
             with dask.config.set(scheduler='synchronous'):
                 run_one(ctx, site, make, files, case.get('schedule', []), replaying=True)
         else:
